@@ -398,17 +398,47 @@ def _np_out(d):
     return {k: np.asarray(v) for k, v in d.items()}
 
 
-def _compare_grads(ns, sub, label, g_lib, g_ref, slack=1.0):
-    """Leaves agree within 2e-4 relative + 1e-4 x slack x (largest reference gradient entry)."""
+def _compare_grads(ns, sub, label, g_lib, g_ref, slack=1.0, extra=None):
+    """Leaves agree within 2e-4 relative + 1e-4 x slack x (largest reference gradient entry)
+    (+ a per-leaf absolute allowance ``extra`` measured by _grad_conditioning)."""
     a = ns.leaves(g_lib)
     b = ns.leaves(g_ref)
     check(sorted(a) == sorted(b), f"{sub}.grad.{label}.structure", lambda: f"{sorted(a)} vs {sorted(b)}")
     gmax = max([_mag(v) for v in b.values()] + [1e-30])
     bad = []
     for k in sorted(b):
-        if not close(a[k], b[k], scale=gmax * slack, rel=2e-4, abs_=1e-4):
+        ex = (extra or {}).get(k, 0.0)
+        if not close(a[k], b[k], scale=gmax * slack + ex / 1e-4, rel=2e-4, abs_=1e-4):
             bad.append((k, maxdiff(a[k], b[k])))
     return bad, gmax
+
+
+def _grad_conditioning(S, ns, g_ref):
+    """LayerNorm amplifies float32 rounding in the backward pass even more than in the forward pass
+    when its input is nearly constant.  Re-evaluate the reference gradient with every parameter and
+    float input perturbed by a relative 2^-21 (a few float32 ulps) and allow 4x the observed movement
+    per leaf.  Well-conditioned cases get ~1e-6 x scale, i.e. nothing."""
+    base = ns.leaves(g_ref)
+    extra = {k: 0.0 for k in base}
+    for rep in range(2):
+        r = np.random.default_rng((int(S.case["pseed"]), 778, rep))
+        mods = S.make_mods()
+        for m in mods:
+            st_ = ns.nnx.state(m, ns.nnx.Param)
+            lv, td = ns.jax.tree_util.tree_flatten(st_)
+            new = [l * (1.0 + np.float32(2.0 ** -21) * r.choice([-1.0, 1.0], size=l.shape).astype(np.float32)) for l in lv]
+            ns.nnx.update(m, ns.jax.tree_util.tree_unflatten(td, new))
+        saved = S.farrs
+        S.farrs = {k: (v * (1.0 + np.float32(2.0 ** -21) * r.choice([-1.0, 1.0], size=v.shape))).astype(np.float32)
+                   for k, v in saved.items()}
+        try:
+            _, info_p = S.reference(mods)
+            g_p = ns.leaves(ns.jit_obj(S.obj)(mods[S.trained], S.consts(info_p), S.obj_static))
+        finally:
+            S.farrs = saved
+        for k in base:
+            extra[k] = max(extra[k], 4.0 * maxdiff(g_p[k], base[k]))
+    return extra
 
 
 def _huber_slack(delta, errors):
@@ -504,7 +534,8 @@ def run_engine(S, case):
         check(bool(np.all(g == 0)), f"{sub}.zero_grad.{name}", lambda: f"max |grad| {_mag(g):.4g}")
     if not info.get("skip_value"):
         g_ref = ns.jit_obj(S.obj)(mods[S.trained], S.consts(info), S.obj_static)
-        bad, gmax = _compare_grads(ns, sub, "trained", gm[S.trained], g_ref, info.get("grad_slack", 1.0))
+        extra_g = _grad_conditioning(S, ns, g_ref) if getattr(S, "conditioning", False) else None
+        bad, gmax = _compare_grads(ns, sub, "trained", gm[S.trained], g_ref, info.get("grad_slack", 1.0), extra_g)
         if bad:
             altg = getattr(S, "classify_grad", None)
             key = altg(ns, mods, gm[S.trained], info) if altg else None
